@@ -298,6 +298,14 @@ theorem model_nums (diff neg : Bool) (cell : Int → Rat) (ds : List Int) (acc :
     rw [List.foldl_cons, hstep, ih]
     simp [numCells, List.append_assoc]
 
+theorem numCells_congr (diff neg : Bool) (c1 c2 : Int → Rat) (ds : List Int) (total : Rat) (h : ∀ d ∈ ds, c1 d = c2 d) :
+    numCells diff neg c1 ds total = numCells diff neg c2 ds total := by
+  induction ds generalizing total with
+  | nil => rfl
+  | cons d rest ih =>
+    simp only [numCells, h d List.mem_cons_self]
+    rw [ih _ (fun x hx => h x (List.mem_cons_of_mem _ hx))]
+
 /-- any fold whose step appends the number cell of the date and updates the running total -/
 theorem fold_nums (diff neg : Bool) (cell : Int → Rat) (f : List Cell × Rat → Int → List Cell × Rat)
     (hstep : ∀ (acc : List Cell) (total : Rat) (d : Int), f (acc, total) d =
@@ -406,7 +414,8 @@ theorem render_agrees (rc : RenderCfg) (rn : balance.Renderer) (t : table.TableL
     (hdiff : rc.diff = rn.Diff) (hends : rc.endDates = date.Partition.EndDates rn.partition)
     (hval : rc.valuation = if rn.Valuation = GoZero.zero then none else some rn.Valuation.name)
     (horder : order.Perm (AMap.keys vals))
-    (hcell : ∀ g ∈ amounts.Amounts.CommoditiesSorted vals order, ∀ d, cell (comOpt g) d = AMap.get vals (amounts.DateCommodityKey d g) 0)
+    (hcell : ∀ g ∈ amounts.Amounts.CommoditiesSorted vals order, ∀ d ∈ date.Partition.EndDates rn.partition,
+      cell (comOpt g) d = AMap.get vals (amounts.DateCommodityKey d g) 0)
     (hown : (interp t).own.length = table.TableLog.rows t)
     (hwidth : (interp t).tbl.width = 1 + (if rn.drawCommsColumn then 1 else 0) + rc.endDates.length) :
     (interp (balance.Renderer.render rn t indent name neg vals order)).tbl.columns = (interp t).tbl.columns ∧
@@ -464,8 +473,7 @@ theorem render_agrees (rc : RenderCfg) (rn : balance.Renderer) (t : table.TableL
           numCells rn.Diff neg (fun d => AMap.get vals (amounts.DateCommodityKey d g) 0) (date.Partition.EndDates rn.partition) 0 := by
       intro f hf
       rw [fold_nums rc.diff neg (cell (comOpt g)) f hf, hdiff, hends]
-      have : cell (comOpt g) = fun d => AMap.get vals (amounts.DateCommodityKey d g) 0 := funext (hcell g hg)
-      rw [this]; rfl
+      exact numCells_congr _ _ _ _ _ _ (hcell g hg)
     simp only [Function.comp, Prod.map, id]
     rw [hnums _ (by intro acc total d; cases h : rc.diff <;> simp)]
     unfold rowCells comOpt
